@@ -311,12 +311,7 @@ impl LuaDocLexer<'_> {
                 LuaTokenKind::TkInt
             }
             ch if ch == '"' || ch == '\'' => {
-                reader.bump();
-                reader.eat_while(|c| c != ch);
-                if reader.current_char() == ch {
-                    reader.bump();
-                }
-
+                lex_doc_string(reader, ch);
                 LuaTokenKind::TkString
             }
             ch if is_name_start(ch) || ch == '`' => {
@@ -636,11 +631,7 @@ impl LuaDocLexer<'_> {
                 LuaTokenKind::TkRightBracket
             }
             ch if ch == '"' || ch == '\'' => {
-                reader.bump();
-                reader.eat_while(|c| c != ch);
-                if reader.current_char() == ch {
-                    reader.bump();
-                }
+                lex_doc_string(reader, ch);
                 LuaTokenKind::TkString
             }
             '.' if reader.next_char().is_ascii_digit() => self.lex_number(),
@@ -859,6 +850,23 @@ fn to_token_or_name(text: &str) -> LuaTokenKind {
 
 fn is_doc_whitespace(ch: char) -> bool {
     ch == ' ' || ch == '\t' || ch == '\r' || ch == '\n'
+}
+
+/// Consume a quoted string whose opening quote is the current char. A backslash escapes the
+/// next char (the string value decoder already understands `\"` and `\'`).
+fn lex_doc_string(reader: &mut Reader, quote: char) {
+    reader.bump();
+    while !reader.is_eof() {
+        let ch = reader.current_char();
+        if ch == quote {
+            reader.bump();
+            return;
+        }
+        reader.bump();
+        if ch == '\\' && !reader.is_eof() {
+            reader.bump();
+        }
+    }
 }
 
 fn read_doc_name<'a>(reader: &'a mut Reader) -> (&'a str, bool /* str tpl */) {
